@@ -15,6 +15,7 @@ if TYPE_CHECKING:
 
 from autoarray.structures.arrays import array_2d_util
 from autoconf import conf
+from autoconf.tools.decorators import cached_property_names
 
 
 def to_new_array(func):
@@ -154,9 +155,14 @@ class AbstractNDArray(ABC):
     def __copy__(self):
         """
         When copying an autoarray also copy its underlying array.
+
+        Cached properties are not copied: a copy is the starting point of every derived object (arithmetic, slicing,
+        `with_new_array`), whose cached quantities must be computed from its own values.
         """
         new = self.__new__(self.__class__)
         new.__dict__.update(self.__dict__)
+        for name in cached_property_names(self.__class__):
+            new.__dict__.pop(name, None)
         new._array = self._array.copy()
         return new
 
@@ -166,6 +172,8 @@ class AbstractNDArray(ABC):
         """
         new = self.__new__(self.__class__)
         new.__dict__.update(self.__dict__)
+        for name in cached_property_names(self.__class__):
+            new.__dict__.pop(name, None)
         new._array = self._array.copy()
         return new
 
